@@ -229,7 +229,50 @@ def case_user(case):
     return r.done(outcome=[round(float(v), 10) for v in ref[2:5]])
 
 
-GROUPS = {"model": case_model, "integral": case_integral, "variants": case_variants, "yadrenko": case_yadrenko, "user": case_user}
+def case_history(case):
+    """functions after in-place parameter changes (with evaluations in between) still equal the closed forms"""
+    r = R()
+    cls, dim = case["cls"], case["dim"]
+    grid = cf.opt_grid(cls, dim, "thorough")
+    m = build(cls, dim, grid[0], 1.0, 1.0, 0.0, None)
+    hs = np.array([0.0, 0.05, 0.3, 0.9, 1.0, 1.7, 4.0])
+    state = {"opts": dict(grid[0]), "var": 1.0, "ls": 1.0, "nug": 0.0, "rs": None}
+    steps = [("opts", o) for o in grid[1:]] + [("ls", 2.5), ("rs", 2.0), ("var", 0.6), ("nug", 0.2), ("opts", grid[0]), ("ls", 0.4)] + [("opts", o) for o in reversed(grid)]
+    for kind, val in steps:
+        m.variogram(hs)  # evaluate before the change
+        m.cor(hs)
+        try:
+            if kind == "opts":
+                for k, v in val.items():
+                    setattr(m, k, v)
+                state["opts"] = dict(val)
+            elif kind == "ls":
+                m.len_scale = val
+                state["ls"] = val
+            elif kind == "rs":
+                m.rescale = val
+                state["rs"] = val
+            elif kind == "var":
+                m.var = val
+                state["var"] = val
+            elif kind == "nug":
+                m.nugget = val
+                state["nug"] = val
+        except ValueError:
+            continue
+        s_ = cf.DEFAULT_RESCALE[cls] if state["rs"] is None else state["rs"]
+        lags = hs * state["ls"] / s_
+        ref = np.array([float(cf.ref_correlation(cls, state["opts"], dim, x, state["ls"], s_)) for x in lags])
+        var = float(m.var)
+        r.close("after in-place changes: correlation == documented closed form of the current parameters", m.correlation(lags), ref, rtol=1e-8, atol=1e-9, cls=cls, dim=dim, step=kind)
+        r.close("after in-place changes: variogram == var (1 - rho) + nugget", m.variogram(lags), var * (1 - ref) + state["nug"], rtol=1e-8, atol=1e-9 * (var + 1), cls=cls, dim=dim, step=kind)
+        fresh = build(cls, dim, state["opts"], 1.0, state["ls"], state["nug"], state["rs"])
+        fresh.var_raw = m.var_raw
+        r.close("after in-place changes: identical to a freshly constructed model", m.variogram(lags), fresh.variogram(lags), rtol=1e-12, atol=1e-14, cls=cls, dim=dim, step=kind)
+    return r.done(outcome=[cls, dim])
+
+
+GROUPS = {"history": case_history, "model": case_model, "integral": case_integral, "variants": case_variants, "yadrenko": case_yadrenko, "user": case_user}
 
 
 def run(chk):
@@ -256,5 +299,7 @@ def run(chk):
     chk.run("yadrenko", case_yadrenko, ycases, rule="classes valid in 3-D x geo_scale: Yadrenko variants vs isotropic functions of the chordal distance 2 R sin(zeta / 2R)")
     ucases = [{"dim": d, "var": v, "len_scale": l, "nugget": n, "rescale": rs} for d in (1, 2, 3) for v in (0.5, 2.0) for l in (0.7, 3.0) for n in (0.0, 0.3) for rs in (None, 2.0)]
     chk.run("user", case_user, ucases, rule="user subclasses defined via cor / correlation / covariance / variogram (same kernel) x dim x var x len_scale x nugget x rescale")
+    hcases = [{"cls": c, "dim": d} for c in cf.SHIPPED for d in cf.valid_dims(c)]
+    chk.run("history", case_history, hcases, rule="class x valid dim: a model is evaluated, then optional arguments (whole grid, forth and back), len_scale, rescale, var, nugget are changed in place with evaluations in between; after every change the functions equal the closed forms of the current parameters and a fresh model", chunk=2)
     chk.assume("nugget-aware variants are judged at exactly 0 and at lags >= 1e-6 len_scale; the library's isclose(r, 0) zone (|r| <= 1e-8) in between is treated as zero lag")
     chk.assume("special-function closed forms compared at rtol 1e-8 / atol 1e-9 (accuracy class of scipy.special); integral scales at 2e-6 (quadrature); JBessel and heavy-tailed parameter sets are excluded from the integral-scale comparison (not absolutely / practically convergent)")
